@@ -385,3 +385,28 @@ Definition headers_of (l : lib) : list header :=
   | LLiquidCrystal => [HLiquidCrystal]
   | LLiquidCrystalI2C => [HWire; HLiquidCrystalI2C]
   end.
+
+(* ---------------------------------------------------------------- names the translator reads *)
+(* harness/gen/c14_libs.py regenerates Gen/LibTable.v from emitter.py and __init__.py; Props/C14.v
+   compares it with these (what the collector tests, which interface literal selects which class) *)
+Definition servo_decl_text : text := [83; 101; 114; 118; 111; 68; 101; 99; 108] (* "ServoDecl" *).
+Definition iface_parallel_text : text := [112; 97; 114; 97; 108; 108; 101; 108] (* "parallel" *).
+Definition iface_i2c_text : text := [105; 50; 99] (* "i2c" *).
+Definition interface_attr_text : text := [105; 110; 116; 101; 114; 102; 97; 99; 101] (* "interface" *).
+Definition dot_h : text := [46; 104] (* ".h" *).
+
+Definition all_libs : list lib := [LServo; LLiquidCrystal; LLiquidCrystalI2C].
+
+(* the model's class -> headers table, as text *)
+Definition model_class_headers : list (text * list text) :=
+  map (fun l => (class_text l, map header_text (headers_of l))) all_libs.
+
+(* what _collect_required_libraries tests for each library *)
+Definition model_required : list (text * text) :=
+  [ (servo_decl_text, class_text LServo);
+    (iface_parallel_text, class_text LLiquidCrystal);
+    (iface_i2c_text, class_text LLiquidCrystalI2C) ].
+
+(* which interface literal selects which class in _ensure_lcd_globals ([] = the else branch) *)
+Definition model_interface_class : list (text * text) :=
+  [ (iface_i2c_text, class_text LLiquidCrystalI2C); ([], class_text LLiquidCrystal) ].
